@@ -15,6 +15,7 @@ Ref(n) == <<"ref", n>>
 
 \* marker expressions and the values they accept
 Regex(lang) == CASE lang = "integer" -> "[0-9]+" [] lang = "lowercase" -> "[a-z]+" [] lang = "lowercase_search" -> "[a-z]+" [] lang = "enum" -> "(?:cat|dog)" [] lang = "alt" -> "(cat)|(dog)"
+                 [] lang = "enum_sp" -> "(?:new york|cat)"
                  [] lang = "date" -> "[0-9]{4}-[0-9]{2}-[0-9]{2}" [] lang = "anything" -> ".*" [] lang = "anyhost" -> "[^.]+"
                  [] lang = "uuid" -> "[0-9a-f]{8}-[0-9a-f]{4}-[0-9a-f]{4}-[0-9a-f]{4}-[0-9a-f]{12}"
 Accepts(lang, v) == CASE lang = "integer"   -> v \in {"12", "7"}
@@ -22,6 +23,7 @@ Accepts(lang, v) == CASE lang = "integer"   -> v \in {"12", "7"}
                       [] lang = "lowercase_search" -> v \in {"ab", "x"}
                       [] lang = "enum"      -> v \in {"cat", "dog"}
                       [] lang = "alt"       -> v \in {"cat", "dog"}
+                      [] lang = "enum_sp"   -> v \in {"new york", "cat"}
                       [] lang = "date"      -> v \in {"2024-03-10"}
                       [] lang = "uuid"      -> v \in {"123e4567-e89b-12d3-a456-426614174000"}
                       [] lang = "anything"  -> TRUE
@@ -34,9 +36,11 @@ Candidates(lang) == CASE lang = "integer"   -> {"12", "7", "1a", "x"}
                       [] lang = "enum"      -> {"cat", "dog", "cow", "catx"}
                       \* a top-level alternation: near misses that would match if the expression were not grouped
                       [] lang = "alt"       -> {"cat", "dog", "cow", "xdog", "catx"}
+                      \* an expression with a space, used in a header pattern (header values are not percent-encoded)
+                      [] lang = "enum_sp"   -> {"new york", "cat", "newyork", "york"}
                       [] lang = "date"      -> {"2024-03-10", "2024-3-10", "20240310"}
                       [] lang = "uuid"      -> {"123e4567-e89b-12d3-a456-426614174000", "123e4567-e89b-12d3-a456-42661417400g", "123e4567"}
-                      [] lang = "anything"  -> {"ab-cd", "fooBar", "x_y", "12"}
+                      [] lang = "anything"  -> {"ab-cd", "fooBar", "x_y", "12", "a-b-b"}   \* the last one repeats what the replace transformers look for
                       [] lang = "anyhost"   -> {"ab-cd", "~e~cole", "~E~COLE"}
 
 \* transformer chain applied left to right
